@@ -11,6 +11,15 @@ def main():
     if rp.get('kind') == 'socket':
         from . import ircreplay
         sys.exit(ircreplay.replay_file(pid, f))
+    if rp.get('kind') in ('timer', 'config'):
+        import importlib
+        mod = importlib.import_module('props.' + pid)
+        run = CheckRun(pid, 'quick', 0).prepare(('dev',))
+        okk, text = mod.native_replay(run, rp)
+        print('native:', text)
+        if okk:
+            print(f'VIOLATION property={pid} replay={path}'); sys.exit(1)
+        sys.exit(0 if okk is False else 2)
     run = CheckRun(pid, 'quick', 0).prepare(())
     outs = run.native_calls([(rp['function'], [bytes.fromhex(a) for a in rp['args']])], release=(rp.get('profile') == 'rel'))
     status, payload = outs[0]
